@@ -21,6 +21,9 @@ func init() {
 // timestamps, at most count values, never more than one buffered, closed in the end, producer gone.
 func c20TickLag() {
 	simrt.SetTickLag(true)
+	if simrt.Chance(1, 2) {
+		simrt.SetTickNoSkip(true) // several stale ticks in a row after a delayed one
+	}
 	count := simrt.DrawRange(2, 8)
 	rate := []time.Duration{time.Microsecond, time.Millisecond, 10 * time.Millisecond}[simrt.Draw(3)]
 	cancelAfter := -1
